@@ -34,7 +34,10 @@ func travBuildTree(kids [][]int) *travRealTree {
 	}
 	for v := 1; v <= n; v++ {
 		if len(kids[v-1]) == 0 {
-			continue // Children stays nil, as the parser leaves it for leaves
+			if v%3 == 0 {
+				t.nodes[v].Children = []*newick.Node{} // an emptied, non-nil slice (e.g. after pruning in place)
+			}
+			continue // otherwise Children stays nil, as the parser leaves it for leaves
 		}
 		ch := make([]*newick.Node, len(kids[v-1]))
 		for j, c := range kids[v-1] {
@@ -198,7 +201,7 @@ func travGen(sid int, chain int) travShape {
 	kinds := []string{"recursive", "deepish", "star", "binary", "single", "broom", "recursive-big", "caterpillar", "deepish-big", "wide-levels"}
 	kind := kinds[sid%len(kinds)]
 	if sid >= 9000 { // the very deep ones
-		kind = []string{"chain", "deep-caterpillar", "deep-broom"}[sid-9000]
+		kind = []string{"chain", "deep-caterpillar", "deep-broom", "wide-star"}[sid-9000]
 	}
 	small := 1 + r.Intn(300)
 	big := 2000 + r.Intn(8001)
@@ -300,6 +303,15 @@ func travGen(sid int, chain int) travShape {
 			}
 			level = next
 		}
+	case "wide-star": // one node with more children than any 16-bit counter holds, hanging below a short spine
+		n = 70010
+		permute = false
+		for c := 2; c <= 5; c++ {
+			grow(c-1, false)
+		}
+		for c := 6; c <= n; c++ {
+			grow(3, false)
+		}
 	case "chain":
 		n = chain
 		permute = false
@@ -399,7 +411,7 @@ func traverseDrive(args []string) error {
 		sids = append(sids, sid)
 	}
 	if chain > 0 {
-		sids = append(sids, 9000, 9001, 9002)
+		sids = append(sids, 9000, 9001, 9002, 9003)
 	}
 	for _, sid := range sids {
 		if only >= 0 && sid != only {
